@@ -728,6 +728,32 @@ func (fs *factSet) bufSize() {
 	})
 }
 
+// regexps: every package-level `regexp.MustCompile(...)` with its name and pattern (the input model
+// spells out what these two expressions match; a bounded repetition or a changed class is a
+// different decoder).
+func (fs *factSet) regexps() {
+	for _, f := range fs.files {
+		for _, d := range f.Decls {
+			gd, ok := d.(*ast.GenDecl)
+			if !ok || gd.Tok != token.VAR {
+				continue
+			}
+			for _, sp := range gd.Specs {
+				vs, ok := sp.(*ast.ValueSpec)
+				if !ok {
+					continue
+				}
+				for i, v := range vs.Values {
+					if c, ok := v.(*ast.CallExpr); ok && fs.text(c.Fun) == "regexp.MustCompile" && i < len(vs.Names) && len(c.Args) == 1 {
+						fs.add("regexps", vs.Names[i].Name+"|"+fs.text(c.Args[0]))
+					}
+				}
+			}
+		}
+	}
+	sort.Strings(fs.lists["regexps"])
+}
+
 // methodSet: the names of the methods declared on a type, sorted.
 func (fs *factSet) methodSet(typ string) {
 	var ms []string
@@ -776,6 +802,7 @@ func collectFacts(dir string) (*factSet, error) {
 	// the method set of the wrapper ExecProcess hands to exec: Run (and everything else) must be
 	// os/exec's own, promoted from the embedded *exec.Cmd; only the three Set… methods are the library's
 	fs.methodSet("osExecCommand")
+	fs.regexps()
 	fs.bufSize()
 	fs.lockDiscipline()
 	fs.sendCalls()
